@@ -301,7 +301,7 @@ def run(ctx):
                     return
                 n_eval += 1
                 err = np.abs(got - want)
-                tol = 1e-8 * want + 1e-12 * scale
+                tol = 1e-8 * want + 1e-11 * scale
                 rel = float((err / (want + 1e-4 * scale)).max())
                 worst = max(worst, rel)
                 if len(act) > 1:
@@ -353,7 +353,7 @@ def run(ctx):
         "discrete part exhaustive: every scenario of ClosedForm.tla is one TLC state (non-empty subsets of the 3 chains x J in 0..4 per chain "
         "x %d coupling triples per chain = %d scenarios, %d model structures); each structure is built through ConfigLoader(dict) on %d "
         "mass/width grid point(s) and every scenario is evaluated on %d seeded interior events in polar coordinates, every %d-th also in "
-        "cartesian coordinates; reference from the TLC tables (P_J, B_J coefficients, (-1)^J, c_k); |got-ref| <= 1e-8 ref + 1e-12 (sum_k|A_k|)^2. "
+        "cartesian coordinates; reference from the TLC tables (P_J, B_J coefficients, (-1)^J, c_k); |got-ref| <= 1e-8 ref + 1e-11 (sum_k|A_k|)^2. "
         "continuous part (events, masses, widths) sampled. distinct = distinct (structure, coupling assignment)"
         % (ncpl, out["nscn"], n_struct, ngrid, nev, cart_every)
     )
